@@ -1,5 +1,7 @@
 import ExaModel.Model.OpenCodec
 set_option linter.unusedSimpArgs false
+set_option linter.unusedVariables false
+set_option linter.unnecessarySimpa false
 /-! Round trip of the capability value codecs: `decodeCap c.code c.value = ok c` for every
     capability that has a wire form. -/
 namespace Exa.Open
